@@ -166,7 +166,7 @@ class _Watchdog:
             with self.lock:  # test-and-interrupt is atomic w.r.t. disarm(): no interrupt can leak into a later check
                 if self.active and (time.process_time() > self.cpu_dl or time.time() > self.wall_dl):
                     # z3 clears / overlooks a cancel request in some phases: keep asking (every 100 ms) until check() returns
-                    if not self.fired or time.time() - self.last_fire > 0.1:
+                    if not self.fired or time.time() - self.last_fire > 1.0:
                         ctx.interrupt()
                         self.fired = True
                         self.last_fire = time.time()
@@ -186,6 +186,8 @@ class _Watchdog:
 
 
 _WD = None
+_RLLOG = os.environ.get("PYVC_RLLOG")
+_RLLAST = [0]
 
 
 def _watchdog():
@@ -233,32 +235,49 @@ class Exec:
     def emitting(self):
         return len(self.taken) >= len(self.prefix)
 
+    RL_PER_MS = 2500  # z3 resource units per millisecond of nominal budget (measured: 1.2-2.6 M units per CPU second)
+
     def _solver(self, ms):
         s = z3.Solver()
-        # the budget `ms` is CPU time of this process, enforced by the watchdog below; z3's own (wall-clock) timeout
-        # is only a distant safety net, so that a busy machine stretches the run instead of flipping verdicts
-        s.set("timeout", int(ms * 8 + 2000))
+        # The budget is z3's deterministic resource counter (`rlimit`), not time: the verdict of a query is then the same on an
+        # idle and on a fully loaded machine, and no timer thread is involved (z3's wall-clock `timeout` was seen both to flip
+        # verdicts under load and, intermittently, not to fire at all - a matching loop then ran for 30 minutes).  `ms` stays the
+        # nominal unit everywhere; the watchdog below is only a distant safety net.
+        s.set("rlimit", int(ms * self.RL_PER_MS))
         s._budget_ms = ms
         return s
 
     def zcheck(self, s):
-        """solver.check() under a CPU-time budget.  z3's own timeout counts wall-clock time (so verdicts flipped to
-        `unknown` when all cores were busy) and is not honoured in every phase (a matching loop can spin for
-        minutes): a per-process watchdog thread interrupts the context once this process has consumed the budget
-        in CPU seconds (or 8x the budget in wall-clock seconds)."""
+        """solver.check() under the solver's rlimit; safety net: a per-process watchdog thread interrupts the context once
+        this process has consumed 4x the nominal budget (+2 s) in CPU seconds, or 8x that in wall-clock seconds."""
         ms = getattr(s, "_budget_ms", self.timeout_ms)
         wd = _watchdog()
-        wd.arm(ms / 1000.0)
+        wd.arm(ms / 1000.0 * 4 + 2)
+        r = z3.unknown
         try:
-            return s.check()
+            r = s.check()
+            return r
         except z3.Z3Exception:
             return z3.unknown
         finally:
             self.last_cpu = wd.disarm()
+            if _RLLOG:
+                try:
+                    st = s.statistics()
+                    rl = [st.get_key_value(k) for k in st.keys() if k == "rlimit count"]
+                    cur = rl[0] if rl else 0
+                    with open(_RLLOG, "a") as f:
+                        f.write("%d %.4f %d %s %s\n" % (ms, self.last_cpu, cur - _RLLAST[0], r, self.mode))
+                    _RLLAST[0] = cur
+                except Exception:  # noqa
+                    pass
 
     def _check(self, extra, ground_only, ms):
         self.stats["feas"] += 1
         s = self._solver(ms)
+        # path pruning is an optimisation: a tighter resource budget than for verdicts (array / lambda heavy queries tick the
+        # resource counter slowly, 1 M units took 2.4 s there)
+        s.set("rlimit", 600000 if ms >= 400 else 150000)
         if not ground_only:
             # E-matching only: a quantified refutation is found (or not) without the model-based
             # instantiation loop that would burn the whole budget on satisfiable path conditions
